@@ -267,7 +267,7 @@ def plan(ctx):
                             replay=Replay(mode='bswap_spec', extra=[a, r], **RP)))
     use = Unit(ctx, 'sign_extend')
     use.function(src, ENC, r'ResultT sign_extend\(SrcT src\)', new_header='ResultT SE_NAME(SrcT src)',
-                 rules=[Rule(r'using UResultT = make_unsigned_t<ResultT>;', '', count=1)])
+                 rules=[])     # `using UResultT = std::make_unsigned_t<ResultT>;` becomes a typedef by the generic rewrites
     use.write(suffix='.inc')
     ctx.functions_under_contract += use.functions
     widths = {8: ('uint8_t', 'int8_t'), 16: ('uint16_t', 'int16_t'), 32: ('uint32_t', 'int32_t'), 64: ('uint64_t', 'int64_t')}
@@ -280,7 +280,7 @@ def plan(ctx):
                     S, R = widths[sw][ssign], widths[rw][rsign]
                     g = Group(name='Encoding.sign_extend<%s,%s>' % (R, S), harness='harness/C03/sign_extend.c', entry='h_sign_extend',
                               function='sign_extend<%s,%s>' % (R, S), enforce='sign_extend_%s_%s' % (R, S),
-                              defines=['ResultT=' + R, 'SrcT=' + S, 'UResultT=' + widths[rw][0], 'SR=' + widths[rw][1],
+                              defines=['ResultT=' + R, 'SrcT=' + S, 'SPEC_UR=' + widths[rw][0], 'SR=' + widths[rw][1],
                                        'SS=' + widths[sw][1], 'US=' + widths[sw][0], 'SE_NAME=sign_extend_%s_%s' % (R, S)],
                               clause_note='result == (signed ResultT)(signed SrcT)src, low bits preserved',
                               replay=Replay(mode='sign_extend', extra=[R, S], **RP))
